@@ -151,6 +151,21 @@ def make_b2_dialect(dname):
                     args = build_args(t, sig, types)
                     if args is None:
                         continue
+                    # a const parameter also accepts a constant EXPRESSION (the type system says so): lit(v) + 0 / lit(s) + ""
+                    m_ = op.trie.best_match(list(sig))
+                    if "const_expr_param" not in carve and m_ is not None and op.ftype == H.Ftype.ELEMENT_WISE and any(T.is_const(prm) and TU.family(a) in ("int", "float", "string") for a, prm in zip(sig, m_[0], strict=False)):
+                        cargs = [((pdt.lit(a) + ("" if isinstance(a, str) else 0)) if (T.is_const(prm) and TU.family(sg) in ("int", "float", "string") and a is not None) else a) for a, sg, prm in zip(args, sig, m_[0], strict=False)]
+                        n += 1
+                        try:
+                            q = t >> pdt.mutate(r=H.ColFn(op, *cargs)) >> pdt.build_query()
+                            if not isinstance(q, str):
+                                bad.append(f"{dname}: {opname}{_fmt(sig)} [constant expressions for the const parameters]: build_query returned {q!r:.60}")
+                        except OK_ERRORS:
+                            pass
+                        except (pdt.errors.DataTypeError, pdt.errors.FunctionTypeError):
+                            pass  # rejected when built: fine
+                        except Exception as ex:  # noqa: BLE001
+                            bad.append(f"{dname}: {opname}{_fmt(sig)} [constant expressions for the const parameters]: {type(ex).__name__}: {str(ex)[:120]}")
                     # every accepted combination of the context keyword arguments (arrange= / partition_by= / filter=) the operator declares
                     ctx_names = [k.name for k in (op.context_kwargs or [])]
                     variants = [{}]
@@ -379,7 +394,7 @@ def obligations(tier):
     except Exception:  # noqa: BLE001
         extra = {"sqlite": []}
     for d in extra:
-        obs.append(Obligation(f"C19/B2/ops/{d}", "B1+B2+B5", f"operator x signature totality on {d}", make_b2_dialect(d), functions=base + extra[d], carveouts={"duration_literal": "timedelta literals", "null_const_param": "None passed to a const parameter", "str_to_datetime_literal": "str.to_datetime / to_date of a string literal on SQLite"}, bounded="one representative type per family (plain / const / null literal); arity <= 3 fully, larger arities over the operator's core types"))
+        obs.append(Obligation(f"C19/B2/ops/{d}", "B1+B2+B5", f"operator x signature totality on {d}", make_b2_dialect(d), functions=base + extra[d], carveouts={"duration_literal": "timedelta literals", "null_const_param": "None passed to a const parameter", "str_to_datetime_literal": "str.to_datetime / to_date of a string literal on SQLite", "const_expr_param": "constant expressions (not plain literals) passed to const parameters"}, bounded="one representative type per family (plain / const / null literal); arity <= 3 fully, larger arities over the operator's core types"))
         obs.append(Obligation(f"C19/B3/pipelines/{d}", "B3+B4", f"pipeline family on {d}", make_b3(d), functions=base + extra[d], bounded=f"{len(PIPELINES)} pipelines"))
     obs.append(Obligation("C19/B6/backend_order", "B6", "compiling on one backend does not change what compiles on another (fresh processes, rotated backend orders)", b6_run, functions=[fi(pdt._internal.backend.impl_store.ImplStore.get_impl), fi(H.table_impl_mod.TableImpl.get_impl)],
                           bounded="up to 3 column-only signatures per operator x polars + 3 dialects x 4 rotations"))
